@@ -1,6 +1,13 @@
 //! Seeded PRNG (SplitMix64 seeding + xoshiro256**), own code so that runs are reproducible
 //! from VERIF_SEED alone and independent of any crate version.
 
+static POOL_SEED: std::sync::atomic::AtomicU64 = std::sync::atomic::AtomicU64::new(0x5EED);
+
+/// The pools of `Rng::pooled` depend on the run's seed only.
+pub fn set_pool_seed(seed: u64) {
+    POOL_SEED.store(seed ^ 0x0123_4567_89AB_CDEF, std::sync::atomic::Ordering::Relaxed);
+}
+
 #[derive(Clone)]
 pub struct Rng {
     s: [u64; 4],
@@ -76,6 +83,21 @@ impl Rng {
 
     pub fn urange(&mut self, lo: usize, hi: usize) -> usize {
         self.range(lo as u64, hi as u64) as usize
+    }
+
+    /// An *identity-like* value (a pattern number, a sequence number, a site, a date ...): one time in
+    /// six it comes from a pool of three values per `slot` that is fixed for the whole run, so that
+    /// across a run many otherwise unrelated inputs share the value.  Anything in the library that
+    /// remembers something under such a key (a cache, a memo table, a "last seen" slot) then meets
+    /// the same key again with different contents.  Otherwise `fresh` is returned.
+    pub fn pooled(&mut self, slot: u64, fresh: u64) -> u64 {
+        if self.chance(1, 6) {
+            let k = self.below(3);
+            let mut x = POOL_SEED.load(std::sync::atomic::Ordering::Relaxed) ^ slot.wrapping_mul(0xD6E8_FEB8_6659_FD93) ^ k.wrapping_mul(0xA24B_AED4_963E_E407);
+            splitmix(&mut x)
+        } else {
+            fresh
+        }
     }
 
     /// True with probability num/den.
